@@ -1,3 +1,4 @@
+import Gtree.Generated.Heap.Wasm
 import Gtree.Lemmas.HeapGrower
 import Gtree.Model.Wasm
 /-
